@@ -110,3 +110,7 @@ Fixpoint flatten_node (n : node) (path : string) : list (string * scalar) :=
 (* Flatten() of a container, in canonical (key-sorted, index-ascending) order; the Go result is a
    map, i.e. this list read as a set of pairs *)
 Definition flatten (d : node) : list (string * scalar) := flatten_node d "".
+
+(* a component string without a "[digits]" suffix: Child treats it as a plain member name *)
+Definition plain_comp (t : string) : bool :=
+  match strip_index (rev (la t)) with None => true | Some _ => false end.
